@@ -994,6 +994,56 @@ def wiring(ctx, mod):
                   'Covobs built with mismatching keys: %s' % unparse(c), mod.loc(c))
 
 
+def complex_branches(ctx, mod, rule='C01-D4'):
+    """Obs <op> complex: every return of an arithmetic method of Obs that is reached for a complex partner is folded symbolically (self a
+    real symbol s, y = a + i b, CObs(r, i) = r + i i) and compared with s <op> y resp. y <op> s."""
+    import sympy as sp
+    s_, a_, b_ = sp.symbols('s a b', real=True, nonzero=True)
+    yv = a_ + sp.I * b_
+    want = {'__add__': s_ + yv, '__radd__': yv + s_, '__sub__': s_ - yv, '__rsub__': yv - s_, '__mul__': s_ * yv, '__rmul__': yv * s_, '__truediv__': s_ / yv, '__rtruediv__': yv / s_}
+    n = 0
+    for name, w in want.items():
+        try:
+            f = mod.func('Obs.' + name)
+        except Exception:
+            continue
+        yname = f.args.args[1].arg if len(f.args.args) > 1 else 'y'
+
+        def tr(e):
+            if isinstance(e, ast.Name):
+                if e.id == 'self':
+                    return s_
+                if e.id == yname:
+                    return yv
+                raise Unrecognised('name %s' % e.id)
+            if isinstance(e, ast.Attribute) and isinstance(e.value, ast.Name) and e.value.id == yname and e.attr in ('real', 'imag'):
+                return a_ if e.attr == 'real' else b_
+            if isinstance(e, ast.Constant) and isinstance(e.value, (int, float)) and not isinstance(e.value, bool):
+                return sp.nsimplify(e.value, rational=True)
+            if isinstance(e, ast.UnaryOp) and isinstance(e.op, ast.USub):
+                return -tr(e.operand)
+            if isinstance(e, ast.BinOp) and isinstance(e.op, (ast.Add, ast.Sub, ast.Mult, ast.Div)):
+                x, y_ = tr(e.left), tr(e.right)
+                return {ast.Add: lambda: x + y_, ast.Sub: lambda: x - y_, ast.Mult: lambda: x * y_, ast.Div: lambda: x / y_}[type(e.op)]()
+            if isinstance(e, ast.Call) and call_name(e) == 'CObs' and len(e.args) == 2:
+                return tr(e.args[0]) + sp.I * tr(e.args[1])
+            raise Unrecognised(unparse(e))
+        for r in [x for x in statements(f) if isinstance(x, ast.Return) and x.value is not None]:
+            g = [(unparse(t), pol) for t, pol in guards_of(mod, r, stop=f)]
+            if not any(pol and 'complex' in t and 'isinstance' in t for t, pol in g):
+                continue
+            n += 1
+            key = 'obs.py:Obs.%s#complex-partner' % name
+            try:
+                got = tr(r.value)
+            except Unrecognised as ex:
+                ctx.unrec(rule, key, 'cannot fold %s (%s)' % (unparse(r.value), ex), mod.loc(r))
+                continue
+            ok = sp.simplify(sp.expand(got - w)) == 0
+            ctx.check(rule, key, ok, '%s = %s' % (unparse(r.value), w), 'for a complex partner y = a + i b the method returns %s = %s, the operation is %s' % (unparse(r.value), sp.simplify(got), sp.simplify(w)), mod.loc(r))
+    ctx.floor('complex-partner branches of Obs arithmetic', n, 5)
+
+
 def scalefactor_unconditional(ctx, mod, rule):
     """the missing-replica scale factors of an input are computed for every input: a shortcut that skips them for inputs that "have all
     names" compares counts of different things (names include covariance names) and drops the up-weighting"""
@@ -1068,6 +1118,7 @@ def run(ctx):
     ctx.guarded('C01-D5', 'obs.py:_merge_idx', C04.merge_idx_rules, ctx, obs, 'C01-D5', (('_merge_idx', 'union'),))
     ctx.guarded('C01-D5', 'obs.py:_check_lists_equal', C04.check_lists_equal_eval, ctx, obs, 'C01-D5')
     ctx.guarded('C01-D5', 'obs.py:derived_observable#scalefactor-unconditional', scalefactor_unconditional, ctx, obs, 'C01-D5')
+    ctx.guarded('C01-D4', 'obs.py@complex-partner', complex_branches, ctx, obs)
     ctx.guarded('C01-D7', 'obs.py:derived_observable@wiring', wiring, ctx, obs)
     from .. import unusedparams, leakedloop
     ctx.rule('C01-D9', 'every accepted option is read (no silently ignored parameter); no loop variable read after its loop')
